@@ -147,7 +147,8 @@ Definition dcase_agrees (c : dcase) : bool :=
 
 (* ------------------------------------------------------------ implementation output satisfies C14
    (independent of the model's algorithms): pruning never hides a document in range.
-   Hypotheses of the theorems are guards here: MIDs and query ends below 2^63; the ID (0,0)
+   Hypotheses of the theorems are guards here: stored MIDs below 2^63 (query ends and requested
+   IDs range over all uint64 since 6d376ea); the ID (0,0)
    is not stored when the query starts at 0. *)
 Definition has_zero_id (ids : list id) : bool := existsb (fun x => id_eqb x (0, 0)) ids.
 
@@ -157,20 +158,17 @@ Definition dcase_spec_ok (c : dcase) : bool :=
       forallb (fun q => let '(l, r, res) := q in
                  if l <=? r then Bool.eqb res (some_in sets l r) else true) qs
   | CDist from to bucket adds st rt idx qs =>
-      if all_small adds then
-        negb (ostate_eqb rt SPanic) &&
-        (* index monotone and inside the bitmask *)
-        (let small := filter (fun p => fst p <? two63) idx in
-         nondecreasing (map fst small) && nondecreasing (map snd small) &&
-         forallb (fun p => (0 <=? snd p) && (snd p <? (let '(_, _, _, s, _) := st in s))) small) &&
-        forallb (fun q => let '(qf, qt, r1, r2) := q in
-                   if (qt <? two63) && some_in adds qf qt then r1 && r2 else true) qs
-      else true
+      negb (ostate_eqb rt SPanic) &&
+      (* index monotone (all uint64) and inside the bitmask *)
+      nondecreasing (map fst idx) && nondecreasing (map snd idx) &&
+      forallb (fun p => (0 <=? snd p) && (snd p <? (let '(_, _, _, s, _) := st in s))) idx &&
+      forallb (fun q => let '(qf, qt, r1, r2) := q in
+                 if some_in adds qf qt then r1 && r2 else true) qs
   | CInfo creation docs with_stub ifrom ito st rt qs =>
       if all_small docs then
         negb (ostate_eqb rt SPanic) &&
         forallb (fun q => let '(qf, qt, r1, r2) := q in
-                   if (qt <? two63) && some_in docs qf qt then r1 && r2 else true) qs
+                   if some_in docs qf qt then r1 && r2 else true) qs
       else true
   | CBorders ids qs =>
       forallb (fun q => let '(qf, qt, lo, hi) := q in
@@ -179,7 +177,7 @@ Definition dcase_spec_ok (c : dcase) : bool :=
   | CFrac creation ids sealed restored itotal ifrom ito st mins tbl_ok qs =>
       if all_small (mids_of ids) then
         forallb (fun q => let '(qf, qt, r, lo, hi, res) := q in
-                   if (qt <? two63) && negb ((qf =? 0) && has_zero_id ids) then
+                   if negb ((qf =? 0) && has_zero_id ids) then
                      (if some_in (mids_of ids) qf qt then r else true) &&
                      ids_eqb res (filter (in_range qf qt) ids)
                    else true) qs
@@ -187,7 +185,7 @@ Definition dcase_spec_ok (c : dcase) : bool :=
   | CStore all qs fetched =>
       if all_small (mids_of all) then
         forallb (fun q => let '(qf, qt, res) := q in
-                   if (qt <? two63) && negb ((qf =? 0) && has_zero_id all) then
+                   if negb ((qf =? 0) && has_zero_id all) then
                      ids_eqb res (filter (in_range qf qt) all)
                    else true) qs &&
         forallb (fun p => snd p) fetched
